@@ -304,5 +304,37 @@ def corpus():
     out.append(("transition-crossed", {"factors": [color, text, rep], "constraints": [],
                                        "blocks": [{"id": 0, "kind": "CrossBlock", "design": [0, 1, 2], "crossing": [0, 2],
                                                    "constraints": [], "rcc": True}], "main": 0}))
+    # crossed transition (preamble trial) + a free basic factor with an excluded level: the preamble's
+    # candidate count and its decoding must use the same filtered level lists (seed C09-preamble-count-unfiltered-levels)
+    size = {"id": 3, "name": "size", "kind": "simple", "levels": [["s", 1], ["m", 1], ["l", 1]]}
+    out.append(("transition-crossed-free-exclude", {
+        "factors": [color, size, rep], "constraints": [{"id": 0, "kind": "Exclude", "level": [3, "l"]}],
+        "blocks": [{"id": 0, "kind": "CrossBlock", "design": [0, 3, 2], "crossing": [0, 2], "constraints": [0], "rcc": False}],
+        "main": 0}))
+    # a within-trial and a transition derived factor in one crossing: the preamble trial must carry
+    # the within-trial factor too (seed C08-preamble-fill-misses-crossed-within)
+    rep3 = dict(rep, id=3)
+    out.append(("within-and-transition-crossed", {
+        "factors": [color, text, con, rep3], "constraints": [],
+        "blocks": [{"id": 0, "kind": "CrossBlock", "design": [0, 1, 2, 3], "crossing": [2, 3], "constraints": [], "rcc": True}],
+        "main": 0}))
+    # windows with an explicit start over a weighted factor that is in no crossing (weight desugaring
+    # rebuilds the window: width, stride and start must survive; seed C15-desugar-window-drops-start)
+    wcolor = {"id": 0, "name": "color", "kind": "simple", "levels": [["red", 2], ["blue", 1]]}
+    for tag, width, stride, start, table in (
+            ("late-start", 1, 1, 2, [[["red"]]]),
+            ("stride2-start1", 1, 2, 1, [[["red"]]]),
+            ("width2-start0", 2, 1, 0, [[["red", "red"]], [["blue", "red"]]])):
+        dw = {"id": 2, "name": "dw", "kind": "derived",
+              "window": {"type": "window", "deps": [0], "width": width, "stride": stride, "start": start},
+              "levels": [{"name": "yes", "table": table}, {"name": "no", "else": True}]}
+        for keep in (False, True):
+            cons = [{"id": 0, "kind": "MinimumTrials", "trials": 4}]
+            if keep:   # a constraint on the derived factor keeps it in the encoding (not implied)
+                cons.append({"id": 1, "kind": "AtMostKInARow", "k": 3, "level": [2, "yes"]})
+            out.append(("window-%s-weighted-source%s" % (tag, "-kept" if keep else ""), {
+                "factors": [wcolor, text, dw], "constraints": cons,
+                "blocks": [{"id": 0, "kind": "CrossBlock", "design": [0, 1, 2], "crossing": [1],
+                            "constraints": [c["id"] for c in cons], "rcc": True}], "main": 0}))
     out += weighted_derived_leftover()
     return out
